@@ -88,6 +88,20 @@ def s_oracle(c):
                 # the caller's buffers are handed over and then re-used (overwritten in place) by the caller: the model
                 # owns what it learned
                 Xb, yb = X[ix].copy(), y[ix].copy()
+                if op == "partial_fit" and hasattr(est, "map") and (i + len(ix)) % 2 == 0:
+                    # a batch the training call refuses (targets that are no class labels / of the wrong length / NaN) in the
+                    # middle of the history: nothing of it may stay behind - the map and both label vectors are as before
+                    ybad = [yb.astype(float) + 0.5, np.append(yb, 0), np.where(np.arange(len(yb)) == 0, np.nan, yb.astype(float))][i % 3]
+                    try:
+                        with np.errstate(all="ignore"):
+                            est.partial_fit(Xb.copy(), ybad, match_tracking=c["mode"], epsilon=float(c["eps"]))
+                        return fails         # accepted: whether it should be is C18's business; the history ends here
+                    except Exception:
+                        bad = map_oracle("SimpleARTMAP", est, None, f"after a refused partial_fit (targets {ybad.tolist()[:6]}..) before op {i}", rep)
+                        if not bad and [int(v) for v in est.labels_] != supplied:
+                            bad = [{"signature": "SimpleARTMAP/stored-targets", "text": f"a refused partial_fit before op {i} changed the stored targets", "replay": rep}]
+                        if bad:
+                            return fails + bad
                 if op == "fit":
                     est.fit(Xb, yb, max_iter=it, match_tracking=c["mode"], epsilon=float(c["eps"]))
                     hist, supplied = {}, [int(v) for v in y[ix]]
